@@ -183,6 +183,20 @@ fn check_typed(ctx: &mut Ctx, jar: &[&Cookie], header: &str, ti: usize, encoded:
     let fields: Vec<Vec<Alt>> = t.fields.iter().map(|(n, k)| field_alts(*k, jar.iter().copied().find(|c| c.name == *n))).collect();
     let obs = match guarded(|| (t.decode)(header)) { Ok(Ok(v)) => Observed::Val(v), Ok(Err(e)) => Observed::Err(e), Err(p) => Observed::Panic(p) };
     let declared = jar.iter().any(|c| t.fields.iter().any(|(n, _)| c.name == *n));
+    // "decodes to the same names and values": the names in a jar are distinct, so what a typed struct gets cannot depend on the
+    // order of the cookies in the header.  The reversed header must give the same result (value for value, or an error both times).
+    if jar.len() >= 2 {
+        let rev: Vec<&Cookie> = jar.iter().rev().copied().collect();
+        let header_rev = header_of(&rev);
+        let obs_rev = match guarded(|| (t.decode)(&header_rev)) { Ok(Ok(v)) => Observed::Val(v), Ok(Err(e)) => Observed::Err(e), Err(p) => Observed::Panic(p) };
+        let same = match (&obs, &obs_rev) { (Observed::Val(a), Observed::Val(b)) => a == b, (Observed::Err(_), Observed::Err(_)) => true, (Observed::Panic(_), _) | (_, Observed::Panic(_)) => true /* reported below / by its own case */, _ => false };
+        if !same {
+            let blamed = culprit(jar);
+            record_violation(ctx, &format!("C11/de/order-dependence/{}/{}", cookie_tag(blamed), if matches!(obs, Observed::Err(_)) || matches!(obs_rev, Observed::Err(_)) { "refused-in-one-order" } else { "other-value-in-other-order" }), declared,
+                || json!({"part": "de", "jar": jar_json(jar), "target": t.id, "header": header, "observed": obs.brief(), "reversed_header": header_rev, "observed_reversed": obs_rev.brief()}));
+            return
+        }
+    }
     match judge(&fields, &obs, t) {
         Verdict::Pass { ambiguous: false, key } => ctx.pass(&key, declared, declared && encoded),
         Verdict::Pass { ambiguous: true, key } => ctx.ambiguous(&key),
